@@ -8,7 +8,7 @@ import tempfile
 
 from anchors import INT_ANCHORS, FLOAT_ANCHORS, UNSET
 
-PATTERNS = {'p1': '[a-cé\U0001F642 ]+', 'p2': '[0-9]*'}
+PATTERNS = {'p1': '[a-cé\U0001F642 ]+', 'p2': '[0-9]*', 'p0': ''}      # p0: a pattern argument that is given but empty
 TS_FORMATS = {'f1': '%Y-%m-%dT%H:%M:%SZ', 'f2': '%Y-%m-%d', 'f3': '%Y-%m-%dT%H:%M:%S.%fZ'}      # f3 carries fractions of a second
 
 
